@@ -51,6 +51,10 @@ for _id in ("C01", "C02", "C03", "C04", "C05", "C06", "C07", "C08", "C09", "C10"
     if _os_path_exists(f"seeded/{_id}_m/patch.diff"):
         P(f"seed {_id}_m (thirteenth round)", _id, f"seeded/{_id}_m/patch.diff")
 
+# breaking variants written on top of refactorings, so that a violation has to be found THROUGH the normalised form (N6 priority table, N7 set methods)
+P("r73 (first-match table) with the two highest priorities swapped (suite-blind)", "C03", "seeded/H_r73_priorities_swapped/patch.diff", "R3.6")
+P("r71 (set operators as methods) with the operands of the difference swapped (suite-blind)", ["C17", "C03"], "seeded/H_r71_difference_swapped/patch.diff", "R3.1")
+
 # ------------------------------------------------------------------ behaviour-preserving refactorings written by independent sub-agents
 # (refactors/r*/patch.diff, each passes the 79 tests): every check must stay silent (exit 0) on every one of them
 import glob as _glob
